@@ -500,6 +500,10 @@ class Update(object):
         # ---------------+--------+---------+------+
         #    Maker      | Length |  Type   |  msg |
         # ---------------+--------+---------+------+
+        if len(msg) + 19 > bgp_cons.MAX_LEN:
+            raise excep.UpdateMessageError(
+                sub_error=bgp_cons.ERR_MSG_UPDATE_ATTR_LEN,
+                data='message of %s octets is larger than %s' % (len(msg) + 19, bgp_cons.MAX_LEN))
         return b'\xff' * 16 + struct.pack('!HB', len(msg) + 19, 2) + msg
 
     @staticmethod
